@@ -15,6 +15,9 @@ var (
 
 // verifLoaderGot reports the state of a loader just taken from the pool.
 func verifLoaderGot(l *loader) {
+	if !verifhook.EventsOn() {
+		return
+	}
 	verifSeenMu.Lock()
 	_, reused := verifSeen[l]
 	if len(verifSeen) > 1<<14 {
